@@ -10,7 +10,7 @@ def add(i, impl, engine, cat, tech, text, note, ref): C[i]=(impl,engine,cat,tech
 
 add("C10", True, "E2-enum", "model_checking",
     "bounded-exhaustive enumeration of the finite QoS product space on the real Reader/Writer vs the DDS RxO table",
-    "The space of (offered, requested) QoS pairs over the stated value alphabets is finite and is enumerated completely (every pair of policies with full alphabets, the 8-policy product over {absent, weakest, strongest}; thorough adds all triples and the complete reduced product). Each pair is executed three ways on real code (compliance_failure_wrt, Reader::update_writer_proxy, Writer::update_reader_proxy) and compared with the RxO table; verdict, reported cause, events and agreement of the three are checked.",
+    "The space of (offered, requested) QoS pairs over the stated value alphabets is finite and is enumerated completely (every pair of policies with full alphabets, the 8-policy product over {absent, weakest, strongest}; thorough adds all triples and the complete reduced product). Each pair is executed three ways on real code (compliance_failure_wrt; Reader::update_writer_proxy with the offered QoS as it arrives through SEDP PL_CDR encode+decode; Writer::update_reader_proxy with the requested QoS likewise through SEDP) and compared with the RxO table; verdict, reported cause, events and agreement of the three are checked.",
     "Trusted: the RxO table as written in harness/src/c10.rs; duration alphabet {0,1s,inf} and strengths {0,7} stand for all values (comparisons are monotone).",
     "5.10")
 
@@ -84,6 +84,12 @@ add("C14", True, "E2-enum", "exploration",
     "About 20 000 messages (thorough: + all ordered compositions of 4 submessages) built only through the constructors the implementation uses: DATA (payload lengths 0..9, 63..65, 255..257, 1019..1028; data / dispose-by-key / dispose-by-key-hash; related sample identity; explicit/unknown reader), DATAFRAG (every fragment for fragment sizes 4,5,8,1024), DATA with inline-QoS lists of 0-3 parameters with value lengths 0..5, GAP (gap_msg, gap_msg_before, explicit), HEARTBEAT (first/last/count/flags product), ACKNACK/NACKFRAG over number sets with bases {1,2,2^31-1,2^31,2^32-1,2^32,2^40} x 10 member patterns (incl. dense 256/257, window edge, beyond window), HEARTBEATFRAG, INFO_TS/DST/SRC/REPLY, both byte orders, every ordered composition of <=3 representative submessages. Oracle per message: an independent framing walker reaches exactly the end and every header's length/flags agree with the bytes; Message::read_from_buffer gives an equal message modulo zero padding of payload/parameter values; re-serialising the parsed message reproduces the bytes; number sets preserve membership inside their window and report nothing outside.",
     "Exhaustive over the stated alphabets only (exploration level): values between the boundary values are not enumerated. Trusted: the walker; DATAFRAG only for samples larger than the fragment size.",
     "5.14")
+
+add("C15", True, "E2-enum", "exploration",
+    "bounded-exhaustive enumeration of present/absent optional-field combinations x value alphabets x both PL_CDR byte orders, foreign-parameter splicing at every position, and parameter removal, on the real (de)serializers",
+    "For SpdpDiscoveredParticipantData, DiscoveredWriterData, DiscoveredReaderData and DiscoveredTopicData (QoS policy sets ride inside them) and ParticipantMessageData: all-absent, every single optional field with each of its 1-3 boundary values (zero/infinite durations, Exclusive strength 0, unspecified-address and IPv6 locators, empty strings ...), every pair of fields with every value combination, all-present per value index and all-but-one (thorough: full power set / all triples), in both encodings: decode(encode(x)) == x. Seven kinds of foreign parameter (unknown standard / vendor-specific PIDs, lengths 0..16) are spliced before every parameter incl. the sentinel of the all-present and all-absent encodings: the decoded value must be unchanged. Each optional parameter is cut out of the all-present bytes: the decoded value must equal the value built with that field absent.",
+    "Exhaustive over the stated alphabets only. Not enumerated: the RPC-over-DDS fields (service_instance_name, related_*_key, topic_aliases), which the decoder documents as not implemented and no constructor sets; security-only fields. Foreign parameters have 4-aligned lengths.",
+    "5.15")
 
 NOT_YET = {}
 
